@@ -1,1 +1,289 @@
-fn main(){}
+//! C15 — expressions, values and contexts are safe to share across threads.
+//!
+//! Compile-time half: this crate type-checks only if the eight listed types are Send + Sync (the
+//! explicit assertions below, and the code that actually shares / moves them).
+//! Dynamic half: generated read-only programs evaluated from 2..16 threads sharing one tree and
+//! one context; every concurrent result must equal the sequential one.
+#![allow(dead_code)]
+
+#[path = "../../checks/src/common.rs"]
+mod common;
+
+use std::path::Path;
+use std::sync::atomic::{AtomicU64, Ordering};
+use std::sync::{mpsc, Arc, Barrier};
+
+use adapt::{build_hashmap_nolog, to_rv, Err as RealErr, HCtx, Tree, Val};
+use evalexpr::{
+    DefaultNumericTypes, EmptyContext, EmptyContextWithBuiltinFunctions, EvalexprError, Function, HashMapContext, Node, Operator,
+    Value,
+};
+use proptest::strategy::{Strategy, ValueTree};
+use proptest::test_runner::{Config, RngSeed, TestRunner};
+use refmodel::ast::{render_tokens, Ast, BitChoices};
+use refmodel::gen::{self, AstCfg};
+use refmodel::interp::Ctx;
+use refmodel::tok;
+use refmodel::value::RV;
+use vcore::serde_json::{json, Value as J};
+use vcore::{Local, Report, Tier};
+
+fn assert_send_sync<T: Send + Sync>() {}
+
+/// The compile-time half: one line per type named by the property.
+fn static_assertions() {
+    assert_send_sync::<Node<DefaultNumericTypes>>();
+    assert_send_sync::<Value<DefaultNumericTypes>>();
+    assert_send_sync::<EvalexprError<DefaultNumericTypes>>();
+    assert_send_sync::<Function<DefaultNumericTypes>>();
+    assert_send_sync::<Operator<DefaultNumericTypes>>();
+    assert_send_sync::<HashMapContext<DefaultNumericTypes>>();
+    assert_send_sync::<EmptyContext<DefaultNumericTypes>>();
+    assert_send_sync::<EmptyContextWithBuiltinFunctions<DefaultNumericTypes>>();
+}
+
+type Res = Result<RV, RealErr>;
+
+fn res_same(a: &Res, b: &Res) -> bool {
+    match (a, b) {
+        (Ok(x), Ok(y)) => x.same(y),
+        (Err(x), Err(y)) => x == y || format!("{:?}", x) == format!("{:?}", y),
+        _ => false,
+    }
+}
+
+fn res_text(a: &Res) -> String {
+    match a {
+        Ok(v) => format!("Ok({})", v.canon()),
+        Err(e) => format!("Err({:?})", e),
+    }
+}
+
+struct Batch {
+    ctx: Ctx,
+    sources: Vec<String>,
+    trees: Vec<Tree>,
+}
+
+fn gen_batch(runner: &mut TestRunner, size: usize, depth: u32) -> Batch {
+    let mut cfg = AstCfg::structural(depth);
+    cfg.assignments = false;
+    cfg.vars = AstCfg::names(&["a", "b", "c", "x"]);
+    cfg.funcs = AstCfg::names(&["f", "g", "min", "str::from", "len", "typeof", "math::abs"]);
+    cfg.rich_literals = true;
+    let ctx_strategy = gen::arb_ctx(AstCfg::names(&["a", "b", "c", "x"]), AstCfg::names(&["f", "g"]));
+    let ctx = ctx_strategy.new_tree(runner).expect("ctx").current();
+    let prog = (gen::arb_ast(&cfg), gen::arb_bits());
+    let mut sources = Vec::new();
+    let mut trees = Vec::new();
+    let mut guard = 0;
+    while trees.len() < size && guard < size * 20 {
+        guard += 1;
+        let (ast, bits): (Ast, Vec<bool>) = prog.new_tree(runner).expect("ast").current();
+        let src = tok::render_spaced(&render_tokens(&ast, &mut BitChoices::new(&bits)));
+        if let Ok(t) = evalexpr::build_operator_tree::<DefaultNumericTypes>(&src) {
+            sources.push(src);
+            trees.push(t);
+        }
+    }
+    Batch { ctx, sources, trees }
+}
+
+fn reads_shared(src: &str) -> bool {
+    let toks = tok::lex(src).map(|o| o.toks).unwrap_or_default();
+    toks.iter().any(|t| matches!(t, tok::Tok::Ident(_)))
+}
+
+fn check_batch(rep: &Report, batch: &Batch, threads: usize, k: usize, l: &mut Local) {
+    let ctx: HCtx = build_hashmap_nolog(&batch.ctx);
+    let empty = EmptyContext::<DefaultNumericTypes>::default();
+    let emptyb = EmptyContextWithBuiltinFunctions::<DefaultNumericTypes>::default();
+    let n = batch.trees.len();
+    // sequential reference results, computed beforehand
+    let seq: Vec<Res> = batch.trees.iter().map(|t| t.eval_with_context(&ctx).map(|v| to_rv(&v))).collect();
+    let seq_e: Vec<Res> = batch.trees.iter().map(|t| t.eval_with_context(&empty).map(|v| to_rv(&v))).collect();
+    let seq_b: Vec<Res> = batch.trees.iter().map(|t| t.eval_with_context(&emptyb).map(|v| to_rv(&v))).collect();
+    let evals = AtomicU64::new(0);
+    let barrier = Barrier::new(threads);
+    let fail_once = |what: &str, j: usize, expected: &Res, got: &Res, t: usize| {
+        rep.fail(
+            "concurrent",
+            &format!("C15/{}", what),
+            json!({"kind": "concurrent", "src": batch.sources[j], "ctx": common::ctx_to_json(&batch.ctx), "threads": t}),
+            res_text(expected),
+            res_text(got),
+            batch.sources[j].len(),
+        );
+    };
+    // (1) scoped threads sharing &Node and &HashMapContext (Sync)
+    std::thread::scope(|s| {
+        for i in 0..threads {
+            let (trees, ctx, empty, emptyb, seq, seq_e, seq_b, barrier, evals, fail_once) =
+                (&batch.trees, &ctx, &empty, &emptyb, &seq, &seq_e, &seq_b, &barrier, &evals, &fail_once);
+            s.spawn(move || {
+                barrier.wait();
+                let offset = i * n / threads.max(1);
+                for round in 0..k {
+                    for jj in 0..n {
+                        let j = (jj + offset + round) % n;
+                        let r = trees[j].eval_with_context(ctx).map(|v| to_rv(&v));
+                        if !res_same(&r, &seq[j]) {
+                            fail_once("concurrent result differs from the sequential result (shared HashMapContext)", j, &seq[j], &r, threads);
+                        }
+                        if round % 8 == 0 {
+                            let r = trees[j].eval_with_context(empty).map(|v| to_rv(&v));
+                            if !res_same(&r, &seq_e[j]) {
+                                fail_once("concurrent result differs from the sequential result (shared EmptyContext)", j, &seq_e[j], &r, threads);
+                            }
+                            let r = trees[j].eval_with_context(emptyb).map(|v| to_rv(&v));
+                            if !res_same(&r, &seq_b[j]) {
+                                fail_once("concurrent result differs from the sequential result (shared EmptyContextWithBuiltinFunctions)", j, &seq_b[j], &r, threads);
+                            }
+                            evals.fetch_add(2, Ordering::Relaxed);
+                        }
+                        evals.fetch_add(1, Ordering::Relaxed);
+                    }
+                }
+            });
+        }
+    });
+    // (2) Arc-shared, 'static threads (Send + Sync + 'static), and values / errors / trees moved
+    // through channels and back
+    let shared_trees = Arc::new(batch.trees.clone());
+    let shared_ctx = Arc::new(ctx.clone());
+    let (tx, rx) = mpsc::channel::<(usize, Result<Val, RealErr>, Tree, Operator<DefaultNumericTypes>)>();
+    let mut handles = Vec::new();
+    for i in 0..threads.min(4) {
+        let (trees, c, tx) = (shared_trees.clone(), shared_ctx.clone(), tx.clone());
+        handles.push(std::thread::spawn(move || {
+            for j in (i..trees.len()).step_by(4) {
+                let r = trees[j].eval_with_context(&*c);
+                // move the result, a clone of the tree and an operator to the main thread
+                let _ = tx.send((j, r, trees[j].clone(), trees[j].operator().clone()));
+            }
+        }));
+    }
+    drop(tx);
+    for (j, r, tree, op) in rx {
+        evals.fetch_add(1, Ordering::Relaxed);
+        let r: Res = r.map(|v| to_rv(&v));
+        if !res_same(&r, &seq[j]) {
+            fail_once("result moved from another thread differs from the sequential result", j, &seq[j], &r, threads);
+        }
+        if tree != batch.trees[j] && format!("{:?}", tree) != format!("{:?}", batch.trees[j]) {
+            fail_once("tree cloned in another thread differs", j, &seq[j], &r, threads);
+        }
+        if &op != batch.trees[j].operator() && format!("{:?}", op) != format!("{:?}", batch.trees[j].operator()) {
+            fail_once("operator cloned in another thread differs", j, &seq[j], &r, threads);
+        }
+    }
+    for h in handles {
+        let _ = h.join();
+    }
+    // a Function moved to another thread and called there
+    let f: Function<DefaultNumericTypes> = Function::new(|v| Ok(v.clone()));
+    let moved = std::thread::spawn(move || {
+        let mut c = HashMapContext::<DefaultNumericTypes>::new();
+        use evalexpr::ContextWithMutableFunctions;
+        c.set_function("id".into(), f).map(|_| evalexpr::eval_with_context("id(7)", &c))
+    })
+    .join();
+    match moved {
+        Ok(Ok(Ok(Value::Int(7)))) => {},
+        other => rep.fail("function", "C15/function moved to another thread misbehaves", json!({"kind": "function"}), "Ok(Int(7))".into(), format!("{:?}", other), 0),
+    }
+    l.evaluations += evals.load(Ordering::Relaxed);
+    if threads >= 4 {
+        for (j, src) in batch.sources.iter().enumerate() {
+            if reads_shared(src) {
+                l.nontrivial_key(&format!("{}\u{1}{}", src, batch.ctx.describe()));
+                let _ = j;
+            }
+        }
+        l.label("batch on >= 4 threads");
+    }
+}
+
+fn run(rep: &Report) {
+    rep.set_rule(
+        "compile-time half: this check's own code shares &Node, &Value, &EvalexprError, &Function, &Operator, \
+         &HashMapContext, &EmptyContext, &EmptyContextWithBuiltinFunctions across thread::scope, moves owned instances \
+         into spawned threads and asserts Send + Sync per type, so it type-checks iff the eight types are Send + Sync. \
+         Dynamic half: batches of generated read-only programs (no assignment; variables, user functions, builtins, \
+         all value types) with one shared context, evaluated K times from T in {2,4,8,16} threads released by a \
+         barrier with staggered offsets (scoped borrows and Arc), results / cloned trees / operators moved back \
+         through a channel; oracle: the sequential result computed beforehand, bit-exact. Non-trivial: distinct \
+         (program, context) that reads a shared variable or calls a shared function, run on >= 4 threads.",
+    );
+    rep.assume("the harness does not own the scheduler: interleavings are sampled, not enumerated (DESIGN §4 C15, honest limit)");
+    rep.assume("loom / shuttle do not apply: the code under test uses no synchronisation primitives that could be swapped for theirs");
+    static_assertions();
+    rep.add_extra("send_sync_types_asserted", json!(8));
+    let (batches, k, size) = match rep.tier {
+        Tier::Quick => (24usize, 40usize, 64usize),
+        Tier::Thorough => (400, 300, 64),
+    };
+    let mut runner = TestRunner::new(Config {
+        rng_seed: RngSeed::Fixed(vcore::mix(rep.seed, 150)),
+        failure_persistence: None,
+        ..Config::default()
+    });
+    let mut l = Local::default();
+    for b in 0..batches {
+        let batch = gen_batch(&mut runner, size, 4);
+        if b < 3 {
+            for s in batch.sources.iter().take(2) {
+                l.samples.push(json!({"src": vcore::clip(s, 100), "ctx": vcore::clip(&batch.ctx.describe(), 160)}));
+            }
+        }
+        for threads in [2usize, 4, 8, 16] {
+            check_batch(rep, &batch, threads, k, &mut l);
+        }
+    }
+    rep.merge(l);
+}
+
+fn replay(case: &J, rep: &Report) {
+    // re-run the saved program on 16 threads many times
+    let src = case["src"].as_str().unwrap_or("1");
+    let ctx = common::ctx_from_json(&case["ctx"]).unwrap_or_else(|| Ctx::hashmap());
+    if let Ok(t) = evalexpr::build_operator_tree::<DefaultNumericTypes>(src) {
+        let batch = Batch { ctx, sources: vec![src.to_string(); 8], trees: vec![t; 8] };
+        let mut l = Local::default();
+        for _ in 0..20 {
+            check_batch(rep, &batch, 16, 200, &mut l);
+        }
+        rep.merge(l);
+    }
+}
+
+fn main() {
+    let args: Vec<String> = std::env::args().skip(1).collect();
+    let code = match args.first().map(|s| s.as_str()) {
+        Some("replay") if args.len() == 2 => {
+            let j = vcore::read_json(Path::new(&args[1])).unwrap_or_else(|e| {
+                eprintln!("HARNESS ERROR: {}", e);
+                std::process::exit(2)
+            });
+            if std::env::var("VERIF_EVIDENCE_OUT").is_err() {
+                std::env::set_var("VERIF_EVIDENCE_OUT", vcore::verif_root().join("out").join("replay_C15.json"));
+            }
+            let mut rep = Report::new("C15", Tier::Quick, vcore::seed_from_env());
+            rep.strict = true;
+            rep.set_rule("replay of one saved case on 16 threads");
+            replay(&j["case"], &rep);
+            rep.finish()
+        },
+        Some("quick") | Some("thorough") | None => {
+            let tier = if args.first().map(|s| s.as_str()) == Some("thorough") { Tier::Thorough } else { Tier::Quick };
+            let rep = Report::new("C15", tier, vcore::seed_from_env());
+            run(&rep);
+            rep.finish()
+        },
+        _ => {
+            eprintln!("usage: c15 [quick|thorough] | c15 replay <file>");
+            2
+        },
+    };
+    std::process::exit(code);
+}
